@@ -52,6 +52,24 @@ func c04Gen(tier string, emit func(c04Case)) {
 			vectors("pnd", n, func(b string) { push(chainShape{N: n, Split: sp, Via: viaFor(sp), Beh: b, Hooks: "C"}) })
 		}
 	}
+	// group middleware added one Use at a time + a later sibling route with middleware of its own
+	// ... with three (and five) group middleware: append gives the slice spare capacity exactly then
+	for _, sp := range [][3]int{{0, 3, 1}, {1, 3, 1}, {0, 3, 2}, {0, 5, 1}} {
+		n := sp[0] + sp[1] + sp[2] + 1
+		for _, via := range []string{"variadic", "use"} {
+			vectors("pn", n, func(b string) { push(chainShape{N: n, Split: sp, Via: via, Beh: b, Hooks: "S"}) })
+		}
+	}
+	for n := 3; n <= 4; n++ {
+		for _, sp := range splitsOf(n - 1) {
+			if sp[1] == 0 || sp[2] == 0 {
+				continue
+			}
+			for _, via := range []string{"variadic", "use", "mixed"} {
+				vectors("pn", n, func(b string) { push(chainShape{N: n, Split: sp, Via: via, Beh: b, Hooks: "S"}) })
+			}
+		}
+	}
 	// the same chains registered and served in rux's debug mode
 	for n := 1; n <= 4; n++ {
 		for _, sp := range splitsOf(n - 1) {
